@@ -72,6 +72,7 @@ def _case(draw, tier):
         "dtype": draw(st.sampled_from(["float64", "float64", "float32", "int64"])),
         "seed": draw(st.integers(0, 2**31 - 1)),
         "materialise_edges_first": draw(st.booleans()),
+        "moved_centres": draw(st.sampled_from([False, False, False, True])),
     }
 
 
@@ -146,6 +147,23 @@ def run_case(case, ctx):
 
     P = _positions(gs, src_mesh, kind)
     Q = _positions(gd, dst_mesh, remap_to)
+    if case.get("moved_centres") and kind == "face centers" and coord_type == "spherical" and not src_mesh.get("centers"):
+        # history: a first remap, then the source's face centres are moved through the public setters
+        # (to the midpoint of each face's first edge); the judged remap must search the new positions
+        import xarray as xr
+
+        xyz_s = meshgen.mesh_xyz(src_mesh)
+        first = ux.UxDataArray(np.zeros(len(P)), dims=["n_face"], uxgrid=gs, name="w")
+        first.remap.nearest_neighbor(gd, remap_to=remap_to, coord_type=coord_type)
+        newP = np.array([S.arc_midpoint(tuple(xyz_s[f[0]]), tuple(xyz_s[f[1]])) for f in src_mesh["faces"]])
+        lon_new, lat_new = writers.lonlat_of(newP)
+        gs.face_lon = xr.DataArray(lon_new, dims=["n_face"])
+        gs.face_lat = xr.DataArray(lat_new, dims=["n_face"])
+        P = newP
+        if gd is gs and remap_to == "face centers":
+            Q = newP
+        site += ":after-moving-centres"
+        ctx.label("history:remap-move-centres-remap")
     if _in_cap(P) or _in_cap(Q):
         ctx.label("no-verdict:element-in-pole-cap")
         return fails
@@ -189,7 +207,7 @@ def run_case(case, ctx):
                 )
                 break
         ctx.label("nn-ties-skipped" if skipped else "nn-no-ties")
-        if not fails and kind == remap_to and case["dst"] is None:
+        if not fails and kind == remap_to and case["dst"] is None and skipped == 0:
             ctx.ev("nn_identity")
             if not np.array_equal(got, data):
                 bad("nn_identity", "not-identity", "remapping onto the source grid's own elements changed the values")
